@@ -162,6 +162,13 @@ func getGrafanaNetAddr(addr string) (string, string, string) {
 // NewGrafanaNet creates a special route that writes to a grafana.net datastore
 // We will automatically run the route and the destination
 func NewGrafanaNet(key string, matcher matcher.Matcher, cfg GrafanaNetConfig) (Route, error) {
+	if cfg.Concurrency < 1 {
+		// metrics are sharded over the workers: without any worker Dispatch would divide by zero
+		return nil, errors.New("NewGrafanaNet: concurrency must be at least 1")
+	}
+	if cfg.BufSize < 0 {
+		return nil, errors.New("NewGrafanaNet: bufSize can not be negative")
+	}
 	schemas, err := getSchemas(cfg.SchemasFile)
 	if err != nil {
 		return nil, err
